@@ -134,6 +134,24 @@ def gen_inputs(t, sd):
     for nm in ("max", "min", "abs", "len", "int", "float", "str", "round", "map", "constrain", "sleep", "range", "bool", "pow", "sum"):
         add(f"shadow:{nm}", PRELUDE + f"def {nm}(a, b):\n    return a * 1.5\nr = {nm}(2, 3)\nmon.write(r)\n")
         add(f"shadow-str:{nm}", PRELUDE + f"def {nm}(a):\n    return \"s\" + a\nr = {nm}(\"x\")\nmon.write(r)\n")
+    # (ii-d) every call of the device API with ONE argument given through a variable and the others as literals (and the reverse):
+    # code that validates "constants" must cope with a mix of folded numbers and expression text
+    from .C08 import specs
+    for sp in specs():
+        names = list(sp["values"])
+        for vi, vn in enumerate(names):
+            for mode in ("one-var", "one-lit"):
+                if t == "quick" and (vi + len(sp["name"]) + (mode == "one-lit")) % 2:
+                    continue
+                pre, parts = [], []
+                for n in names:
+                    as_var = (n == vn) if mode == "one-var" else (n != vn)
+                    if as_var and sp["values"][n] != "cb":
+                        pre.append(f"V_{n} = {sp['values'][n]}")
+                        parts.append(f"{n}=V_{n}")
+                    else:
+                        parts.append(f"{n}={sp['values'][n]}")
+                add(f"mixed-args:{sp['name']}", corpus.HDR + "\n".join(pre) + "\n" + sp["prelude"] + sp["call"].format(args=", ".join(parts)) + "\n")
     # (iii) arbitrary valid Python: the repository's own sources and tests, and mutated copies
     files = sorted((REPO / "src").rglob("*.py")) + sorted((REPO / "tests").rglob("*.py"))
     for f in files:
